@@ -608,6 +608,31 @@ impl<'a> VisitMut for Rewriter<'a> {
                 }
             }
         }
+        // R17: `matches!(e, pat [if g])` is expanded to its definition `match e { pat [if g] => true, _ => false }`
+        // (so that paths inside the macro tokens are seen by the other rules and by the verifier's own macro-free view)
+        if let syn::Expr::Macro(m) = e {
+            if m.mac.path.is_ident("matches") {
+                struct MatchesArgs { e: syn::Expr, pat: syn::Pat, guard: Option<syn::Expr> }
+                impl syn::parse::Parse for MatchesArgs {
+                    fn parse(input: syn::parse::ParseStream) -> syn::Result<Self> {
+                        let e: syn::Expr = input.parse()?;
+                        let _: syn::Token![,] = input.parse()?;
+                        let pat = syn::Pat::parse_multi_with_leading_vert(input)?;
+                        let guard = if input.peek(syn::Token![if]) { let _: syn::Token![if] = input.parse()?; Some(input.parse()?) } else { None };
+                        let _: Option<syn::Token![,]> = input.parse()?;
+                        Ok(MatchesArgs { e, pat, guard })
+                    }
+                }
+                if let Ok(a) = syn::parse2::<MatchesArgs>(m.mac.tokens.clone()) {
+                    let (ex, pat) = (a.e, a.pat);
+                    *e = match a.guard {
+                        Some(g) => syn::parse_quote!(match #ex { #pat if #g => true, _ => false }),
+                        None => syn::parse_quote!(match #ex { #pat => true, _ => false }),
+                    };
+                    self.rules.insert("R17".into());
+                }
+            }
+        }
         // R16: `format!(..)` in expression position becomes `vx_format()` (an unconstrained String): the contracts
         // never depend on message text; arguments must be side-effect free (R2's allow-list)
         if let syn::Expr::Macro(m) = e {
